@@ -74,6 +74,9 @@ type Replay struct {
 	Original json.RawMessage     `json:"original_case,omitempty"`
 	Tail     interface{}         `json:"last_events,omitempty"`
 	Stuck    interface{}         `json:"stuck,omitempty"`
+	// Regen: the case is not stored; it is regenerated from (seed, run) and
+	// executed in generation mode (used for runs that crash the process).
+	Regen bool `json:"regen,omitempty"`
 }
 
 // KnownFinding is one entry of /verif/known_findings.json.
